@@ -21,7 +21,7 @@ Record position := mkPos {
   p_amount : fx;               (* token amount of the active side *)
   p_price : fx;                (* low-biased (asset) / high-biased (liability) price *)
   p_scale : fx;                (* EXP_10_I80F48[bank.get_balance_decimals()] *)
-  p_bank : bank;
+  p_bank : cbank;
   p_discount : option fx       (* Some d when the bank is over its total_asset_value_init_limit *)
 }.
 
@@ -40,15 +40,15 @@ Definition entry_weight (rt : req_type) (e : emode_entry) : fx :=
   match rt with RInitial => ee_init e | RMaint => ee_maint e end.
 
 (* the weight chosen in calc_weighted_asset_value before the init discount *)
-Definition asset_weight (rt : req_type) (b : bank) (recon : list emode_entry) : fx :=
-  match find_with_tag recon (es_tag (b_emode b)) with
-  | Some e => fmax (bank_asset_weight rt (b_cfg b)) (entry_weight rt e)
-  | None => bank_asset_weight rt (b_cfg b)
+Definition asset_weight (rt : req_type) (b : cbank) (recon : list emode_entry) : fx :=
+  match find_with_tag recon (es_tag (cb_emode b)) with
+  | Some e => fmax (bank_asset_weight rt (cb_cfg b)) (entry_weight rt e)
+  | None => bank_asset_weight rt (cb_cfg b)
   end.
 
 (* calc_weighted_asset_value *)
 Definition weighted_asset_value (rt : req_type) (recon : list emode_entry) (p : position) : res fx :=
-  let c := b_cfg (p_bank p) in
+  let c := cb_cfg (p_bank p) in
   if bc_risk_tier c =? RISK_COLLATERAL then
     if (bc_op_state c =? OP_REDUCE_ONLY) && (match rt with RInitial => true | RMaint => false end) then Ok 0
     else
@@ -62,7 +62,7 @@ Definition weighted_asset_value (rt : req_type) (recon : list emode_entry) (p : 
 
 (* calc_weighted_liab_value *)
 Definition weighted_liab_value (rt : req_type) (p : position) : res fx :=
-  calc_value_w (p_amount p) (p_price p) (p_scale p) (bank_liab_weight rt (b_cfg (p_bank p))).
+  calc_value_w (p_amount p) (p_price p) (p_scale p) (bank_liab_weight rt (cb_cfg (p_bank p))).
 
 (* get_account_health_components: (total_assets, total_liabilities) with checked additions *)
 Fixpoint health_components (rt : req_type) (recon : list emode_entry) (l : list position) (acc : fx * fx)
@@ -80,7 +80,7 @@ Fixpoint health_components (rt : req_type) (recon : list emode_entry) (l : list 
 (* RiskEngine: reconcile the e-mode configs of the banks the account borrows from, then sum *)
 Definition account_health (rt : req_type) (l : list position) : res (fx * fx) :=
   let* recon := reconcile_emode_configs
-                  (map (fun p => es_entries (b_emode (p_bank p))) (filter p_is_liab l)) in
+                  (map (fun p => es_entries (cb_emode (p_bank p))) (filter p_is_liab l)) in
   health_components rt recon l (0, 0).
 
 (* the same evaluation with e-mode switched off (empty reconciled config) *)
@@ -92,4 +92,28 @@ Definition calc_value_dec (amount price : fx) (decimals : Z) (w : fx) : res fx :
   match nth_error EXP_10_I80F48 (Z.to_nat decimals) with
   | Some s => calc_value_w amount price s w
   | None => Err EPanic
+  end.
+
+(* calc_value(amount, price, decimals, None) *)
+Definition calc_value_nw (amount price scale : fx) : res fx :=
+  if amount =? 0 then Ok 0 else
+  let* v := ok_or (cmul amount price) EMathError in
+  ok_or (cdiv v scale) EMathError.
+
+(* Bank::maybe_get_asset_weight_init_discount: `total_amount` = get_asset_amount(total_asset_shares) *)
+Definition init_discount (limit : Z) (total_amount price scale : fx) : res (option fx) :=
+  if limit =? TOTAL_ASSET_VALUE_INIT_LIMIT_INACTIVE then Ok None else
+  let* tv := calc_value_nw total_amount price scale in
+  let lim := of_int limit in
+  if lim <? tv then let* d := ok_or (cdiv lim tv) EMathError in Ok (Some d) else Ok None.
+
+(* a position as the risk engine sees it for a balance of `amount` tokens in bank `b` whose total
+   deposits are `total_amount`, priced at `price` (used by the level-C health probe) *)
+Definition probe_position (is_liab : bool) (amount price : fx) (decimals : Z) (b : cbank) (total_amount : fx)
+  : res position :=
+  match nth_error EXP_10_I80F48 (Z.to_nat decimals) with
+  | None => Err EPanic
+  | Some scale =>
+      let* d := if is_liab then Ok None else init_discount (bc_init_limit (cb_cfg b)) total_amount price scale in
+      Ok (mkPos is_liab amount price scale b d)
   end.
